@@ -7,6 +7,7 @@ package checks
 
 import (
 	"fmt"
+	"github.com/alicebob/sqlittle"
 	"math"
 	"strings"
 
@@ -88,7 +89,7 @@ func c14LengthSpec(ps int, lengths []int, text bool, lay dbgen.Layout) *dbgen.Sp
 }
 
 func runC14(r *ev.Run) {
-	r.Rule = "(i) page sizes 512 (quick) and 1024 (thorough): every value length 0..3*pagesize as the payload of a table cell and of an index cell, text and blob, overflow chains contiguous and scattered; other page sizes: every length within -8..+3 of each local/overflow threshold (X, M+n(U-4), K<=X flips) for the first 3 overflow page counts; (ii) every serial type: integers at min/min+1/-1/max-1/max and both sides of every width boundary, also stored in non-minimal widths, constants 0/1, real bit patterns, text/blob lengths at the 1/2/3-byte serial type boundaries; (iii) varints of every length 1..9 in rowids, payload sizes, header sizes (records of 1..300 columns) and serial types; each family built by the independent encoder (SQLite must read the same values: conformance) and by real SQLite from the same values; read through Select, Table.Scan and Index.Scan (after keyed scans that start in the middle of the index). non-trivial = cases with overflow pages or multi-byte varints; dense pages: tables, an index and a WITHOUT ROWID table of records without a body byte (NULL, 0, 1, empty text, empty blob) written by SQLite in key order at page sizes 512, 1024 and 4096"
+	r.Rule = "(i) page sizes 512 (quick) and 1024 (thorough): every value length 0..3*pagesize as the payload of a table cell and of an index cell, text and blob, overflow chains contiguous and scattered; other page sizes: every length within -8..+3 of each local/overflow threshold (X, M+n(U-4), K<=X flips) for the first 3 overflow page counts; (ii) every serial type: integers at min/min+1/-1/max-1/max and both sides of every width boundary, also stored in non-minimal widths, constants 0/1, real bit patterns, text/blob lengths at the 1/2/3-byte serial type boundaries; (iii) varints of every length 1..9 in rowids, payload sizes, header sizes (records of 1..300 columns) and serial types; each family built by the independent encoder (SQLite must read the same values: conformance) and by real SQLite from the same values; read through Select, Table.Scan and Index.Scan (after keyed scans that start in the middle of the index). non-trivial = cases with overflow pages or multi-byte varints; dense pages: tables, an index and a WITHOUT ROWID table of records without a body byte (NULL, 0, 1, empty text, empty blob) written by SQLite in key order at page sizes 512, 1024 and 4096; every row of the length / value families is read again by rowid lookup (SelectRowid, Table.Rowid) and must decode like the scan"
 	// ---- (i) lengths
 	type lenJob struct {
 		ps      int
@@ -292,6 +293,43 @@ func c14Read(r *ev.Run, image []byte, table, index string, spec *dbgen.Spec, img
 	}
 	if !RowsEq(got, want, desc["builder"] == "sqlite") {
 		r.Violation("C14:table-values:"+fmt.Sprint(desc["family"]), "Select decodes differently: "+firstDiff(got, want), desc)
+	}
+	// every row once more by rowid lookup (another path to the same cells): SelectRowid and the low level Table.Rowid
+	{
+		for i, row := range rows {
+			if i >= len(want) {
+				break
+			}
+			var one sqlittle.Row
+			var lerr error
+			if p := Safely(func() { one, lerr = h.SelectRowid(table, row.Rowid, cols...) }); p != nil {
+				r.Violation("C14:panic", fmt.Sprintf("SelectRowid(%d) panics: %v", row.Rowid, p), desc)
+				return
+			}
+			r.Trans(1)
+			if lerr != nil || one == nil {
+				r.Violation("C14:rowid-lookup-error", fmt.Sprintf("SelectRowid(%d) on a well-formed image: row found=%v err=%v (the scan decodes the row)", row.Rowid, one != nil, lerr), desc)
+				return
+			}
+			if !RowsEq([][]interface{}{CopyRow(one)}, want[i:i+1], desc["builder"] == "sqlite") {
+				r.Violation("C14:rowid-lookup-values:"+fmt.Sprint(desc["family"]), fmt.Sprintf("SelectRowid(%d) decodes differently from the scan: %s", row.Rowid, firstDiff([][]interface{}{CopyRow(one)}, want[i:i+1])), desc)
+				return
+			}
+		}
+		d.RLock()
+		tb, terr := d.Table(table)
+		if terr == nil {
+			for _, row := range rows {
+				rec, rerr := tb.Rowid(row.Rowid)
+				r.Trans(1)
+				if rerr != nil || rec == nil {
+					d.RUnlock()
+					r.Violation("C14:rowid-lookup-error", fmt.Sprintf("Table.Rowid(%d) on a well-formed image: record found=%v err=%v (the scan decodes the row)", row.Rowid, rec != nil, rerr), desc)
+					return
+				}
+			}
+		}
+		d.RUnlock()
 	}
 	if index == "" {
 		return
